@@ -19,6 +19,7 @@ import uberjob
 from harness import cache_explore as ce
 from harness import coop, plans
 from harness import phys_common as pc
+from harness import norm_exec
 
 GEN = ["Stale", "DryRun"]
 PROPS = {"C09"}
@@ -380,7 +381,15 @@ def explore(ctx):
     quick = ctx.tier == "quick"
     res = explore_phys(ctx, 130 if quick else 2600, steps=4 if quick else 5)
     cov = res["coverage"]
+    # the execution model with normalising stores (C09_consumer_gets_readback, C09_norm_simulation): driver `execn`
+    rn = norm_exec.explore_norm(ctx, 70 if quick else 1500, steps=5, props=PROPS)
+    res["violations"] += rn["violations"]
+    res["disagreements"] += rn["disagreements"]
+    cov.update(rn["coverage"])
+    cov["evaluations"] += rn["coverage"].get("norm_effects", 0)
     if not res["violations"] and not res["disagreements"]:
+        if cov.get("norm_rebuilt", 0) == 0 or cov.get("norm_consumed_readbacks", 0) == 0 or cov.get("norm_partial_runs", 0) == 0:
+            raise Broken("correspondence", "generator-floor", "no run with normalising stores rebuilt a value / consumed a read-back")
         # floors: a generator that stops producing the interesting cases must not pass vacuously
         if cov["comparisons"] and cov["nontrivial"] * 3 < cov["comparisons"]:
             raise Broken("correspondence", "generator-floor", "fewer than a third of the compared states have an out-of-date registered node")
@@ -399,6 +408,8 @@ def search(ctx, broken):
         c.seed = ctx.seed + 977 * k
         c.driver = None
         found += explore_phys(c, 500, steps=5, structural=False)["violations"]
+        if not found:
+            found += norm_exec.explore_norm(c, 300, steps=5, props=PROPS)["violations"]
         if found:
             break
     return found
@@ -406,6 +417,8 @@ def search(ctx, broken):
 
 def replay(ctx, payload):
     w = payload.get("witness", payload)
+    if w.get("kind") == "norm":
+        return norm_exec.replay_norm(ctx, w, PROPS)
     # the real scheduler breaks ties by object identity (greedy priorities over sets of nodes): a schedule-dependent
     # witness may need more than one attempt
     for _ in range(4):
